@@ -541,7 +541,8 @@ pub fn run_property(prop: Property, make_gens: impl FnOnce(&Ctx) -> Vec<Gen<'sta
     if new_total > 0 {
         std::process::exit(1);
     }
-    if !harness_panics.is_empty() || evaluations == 0 || shapes.len() < 2 {
+    let sub_run = std::env::var_os("VERIF_SANITIZER").is_some();
+    if !harness_panics.is_empty() || evaluations == 0 || (shapes.len() < 2 && !sub_run) {
         eprintln!(
             "harness problem: evaluations={} distinct={} harness_errors={}",
             evaluations,
